@@ -204,6 +204,24 @@ func (e *Engine) verifyFuncMode(name, kf string) (*VC, error) {
 		}
 	}
 	exit, results := vc.execBody(fr, st)
+	// fail closed: a cut point or loop invariant that no longer attaches to the
+	// code (the call or the loop is gone) would silently stop being checked
+	for _, key := range sortedKeys(con.Asserts) {
+		if !fr.cutHits[key] {
+			vc.oblige(st, "spec-error", "assert-unattached/"+strings.ReplaceAll(key, " ", "-"), "false", con.Pos, "the assertions at cut point \""+key+"\" did not attach to any call of "+name)
+		}
+	}
+	for _, key := range sortedKeys(con.Ghosts) {
+		if !fr.cutHits[key] {
+			vc.oblige(st, "spec-error", "ghost-unattached/"+strings.ReplaceAll(key, " ", "-"), "false", con.Pos, "the ghost at cut point \""+key+"\" did not attach to any call of "+name)
+		}
+	}
+	nloops := len(fr.loops)
+	for ord := range con.LoopInv {
+		if ord >= nloops {
+			vc.oblige(st, "spec-error", fmt.Sprintf("loop%d-missing", ord), "false", con.Pos, fmt.Sprintf("loop %d has invariants but %s has only %d loops", ord, name, nloops))
+		}
+	}
 	if exit == nil {
 		if len(con.Ensures) > 0 {
 			vc.oblige(st, "cover", "returns", "false", con.Pos, "function has a reachable return")
